@@ -31,17 +31,20 @@ package codec
 //@   requires self != nil && isT(in, message.GlobalBeginRequest)
 //@   let m := in.(message.GlobalBeginRequest)
 //@   requires wire_limits(m)
+//@   aux expect := wire(m)
 //@   ensures layout: result == wire(m)
 //@   nopanic
 //@ func (*GlobalBeginRequestCodec).Decode
 //@   prop C12
 //@   let m := some(message.GlobalBeginRequest)
 //@   requires self != nil && wire_ok(m) && in == wire(m)
+//@   aux wirefields := wirefields(m)
 //@   ensures typed: isT(result, message.GlobalBeginRequest)
 //@   ensures inverse: wire_eq(result.(message.GlobalBeginRequest), m)
 //@   nopanic
 //@ func (*GlobalBeginRequestCodec).GetMessageType
 //@   prop C12
+//@   aux expect := typecode(message.GlobalBeginRequest)
 //@   ensures typecode: result == typecode(message.GlobalBeginRequest)
 //@   nopanic
 
@@ -50,17 +53,20 @@ package codec
 //@   requires self != nil && isT(in, message.GlobalBeginResponse)
 //@   let m := in.(message.GlobalBeginResponse)
 //@   requires wire_limits(m)
+//@   aux expect := wire(m)
 //@   ensures layout: result == wire(m)
 //@   nopanic
 //@ func (*GlobalBeginResponseCodec).Decode
 //@   prop C12
 //@   let m := some(message.GlobalBeginResponse)
 //@   requires self != nil && wire_ok(m) && in == wire(m)
+//@   aux wirefields := wirefields(m)
 //@   ensures typed: isT(result, message.GlobalBeginResponse)
 //@   ensures inverse: wire_eq(result.(message.GlobalBeginResponse), m)
 //@   nopanic
 //@ func (*GlobalBeginResponseCodec).GetMessageType
 //@   prop C12
+//@   aux expect := typecode(message.GlobalBeginResponse)
 //@   ensures typecode: result == typecode(message.GlobalBeginResponse)
 //@   nopanic
 
@@ -69,17 +75,20 @@ package codec
 //@   requires self != nil && isT(in, message.BranchCommitRequest)
 //@   let m := in.(message.BranchCommitRequest)
 //@   requires wire_limits(m)
+//@   aux expect := wire(m)
 //@   ensures layout: result == wire(m)
 //@   nopanic
 //@ func (*BranchCommitRequestCodec).Decode
 //@   prop C12
 //@   let m := some(message.BranchCommitRequest)
 //@   requires self != nil && wire_ok(m) && in == wire(m)
+//@   aux wirefields := wirefields(m)
 //@   ensures typed: isT(result, message.BranchCommitRequest)
 //@   ensures inverse: wire_eq(result.(message.BranchCommitRequest), m)
 //@   nopanic
 //@ func (*BranchCommitRequestCodec).GetMessageType
 //@   prop C12
+//@   aux expect := typecode(message.BranchCommitRequest)
 //@   ensures typecode: result == typecode(message.BranchCommitRequest)
 //@   nopanic
 
@@ -88,17 +97,20 @@ package codec
 //@   requires self != nil && isT(in, message.BranchCommitResponse)
 //@   let m := in.(message.BranchCommitResponse)
 //@   requires wire_limits(m)
+//@   aux expect := wire(m)
 //@   ensures layout: result == wire(m)
 //@   nopanic
 //@ func (*BranchCommitResponseCodec).Decode
 //@   prop C12
 //@   let m := some(message.BranchCommitResponse)
 //@   requires self != nil && wire_ok(m) && in == wire(m)
+//@   aux wirefields := wirefields(m)
 //@   ensures typed: isT(result, message.BranchCommitResponse)
 //@   ensures inverse: wire_eq(result.(message.BranchCommitResponse), m)
 //@   nopanic
 //@ func (*BranchCommitResponseCodec).GetMessageType
 //@   prop C12
+//@   aux expect := typecode(message.BranchCommitResponse)
 //@   ensures typecode: result == typecode(message.BranchCommitResponse)
 //@   nopanic
 
@@ -107,17 +119,20 @@ package codec
 //@   requires self != nil && isT(in, message.BranchRollbackRequest)
 //@   let m := in.(message.BranchRollbackRequest)
 //@   requires wire_limits(m)
+//@   aux expect := wire(m)
 //@   ensures layout: result == wire(m)
 //@   nopanic
 //@ func (*BranchRollbackRequestCodec).Decode
 //@   prop C12
 //@   let m := some(message.BranchRollbackRequest)
 //@   requires self != nil && wire_ok(m) && in == wire(m)
+//@   aux wirefields := wirefields(m)
 //@   ensures typed: isT(result, message.BranchRollbackRequest)
 //@   ensures inverse: wire_eq(result.(message.BranchRollbackRequest), m)
 //@   nopanic
 //@ func (*BranchRollbackRequestCodec).GetMessageType
 //@   prop C12
+//@   aux expect := typecode(message.BranchRollbackRequest)
 //@   ensures typecode: result == typecode(message.BranchRollbackRequest)
 //@   nopanic
 
@@ -126,17 +141,20 @@ package codec
 //@   requires self != nil && isT(in, message.BranchRollbackResponse)
 //@   let m := in.(message.BranchRollbackResponse)
 //@   requires wire_limits(m)
+//@   aux expect := wire(m)
 //@   ensures layout: result == wire(m)
 //@   nopanic
 //@ func (*BranchRollbackResponseCodec).Decode
 //@   prop C12
 //@   let m := some(message.BranchRollbackResponse)
 //@   requires self != nil && wire_ok(m) && in == wire(m)
+//@   aux wirefields := wirefields(m)
 //@   ensures typed: isT(result, message.BranchRollbackResponse)
 //@   ensures inverse: wire_eq(result.(message.BranchRollbackResponse), m)
 //@   nopanic
 //@ func (*BranchRollbackResponseCodec).GetMessageType
 //@   prop C12
+//@   aux expect := typecode(message.BranchRollbackResponse)
 //@   ensures typecode: result == typecode(message.BranchRollbackResponse)
 //@   nopanic
 
@@ -145,17 +163,20 @@ package codec
 //@   requires self != nil && isT(in, message.GlobalCommitRequest)
 //@   let m := in.(message.GlobalCommitRequest)
 //@   requires wire_limits(m)
+//@   aux expect := wire(m)
 //@   ensures layout: result == wire(m)
 //@   nopanic
 //@ func (*GlobalCommitRequestCodec).Decode
 //@   prop C12
 //@   let m := some(message.GlobalCommitRequest)
 //@   requires self != nil && wire_ok(m) && in == wire(m)
+//@   aux wirefields := wirefields(m)
 //@   ensures typed: isT(result, message.GlobalCommitRequest)
 //@   ensures inverse: wire_eq(result.(message.GlobalCommitRequest), m)
 //@   nopanic
 //@ func (*GlobalCommitRequestCodec).GetMessageType
 //@   prop C12
+//@   aux expect := typecode(message.GlobalCommitRequest)
 //@   ensures typecode: result == typecode(message.GlobalCommitRequest)
 //@   nopanic
 
@@ -164,17 +185,20 @@ package codec
 //@   requires self != nil && isT(in, message.GlobalCommitResponse)
 //@   let m := in.(message.GlobalCommitResponse)
 //@   requires wire_limits(m)
+//@   aux expect := wire(m)
 //@   ensures layout: result == wire(m)
 //@   nopanic
 //@ func (*GlobalCommitResponseCodec).Decode
 //@   prop C12
 //@   let m := some(message.GlobalCommitResponse)
 //@   requires self != nil && wire_ok(m) && in == wire(m)
+//@   aux wirefields := wirefields(m)
 //@   ensures typed: isT(result, message.GlobalCommitResponse)
 //@   ensures inverse: wire_eq(result.(message.GlobalCommitResponse), m)
 //@   nopanic
 //@ func (*GlobalCommitResponseCodec).GetMessageType
 //@   prop C12
+//@   aux expect := typecode(message.GlobalCommitResponse)
 //@   ensures typecode: result == typecode(message.GlobalCommitResponse)
 //@   nopanic
 
@@ -183,17 +207,20 @@ package codec
 //@   requires self != nil && isT(in, message.GlobalRollbackRequest)
 //@   let m := in.(message.GlobalRollbackRequest)
 //@   requires wire_limits(m)
+//@   aux expect := wire(m)
 //@   ensures layout: result == wire(m)
 //@   nopanic
 //@ func (*GlobalRollbackRequestCodec).Decode
 //@   prop C12
 //@   let m := some(message.GlobalRollbackRequest)
 //@   requires self != nil && wire_ok(m) && in == wire(m)
+//@   aux wirefields := wirefields(m)
 //@   ensures typed: isT(result, message.GlobalRollbackRequest)
 //@   ensures inverse: wire_eq(result.(message.GlobalRollbackRequest), m)
 //@   nopanic
 //@ func (*GlobalRollbackRequestCodec).GetMessageType
 //@   prop C12
+//@   aux expect := typecode(message.GlobalRollbackRequest)
 //@   ensures typecode: result == typecode(message.GlobalRollbackRequest)
 //@   nopanic
 
@@ -202,17 +229,20 @@ package codec
 //@   requires self != nil && isT(in, message.GlobalRollbackResponse)
 //@   let m := in.(message.GlobalRollbackResponse)
 //@   requires wire_limits(m)
+//@   aux expect := wire(m)
 //@   ensures layout: result == wire(m)
 //@   nopanic
 //@ func (*GlobalRollbackResponseCodec).Decode
 //@   prop C12
 //@   let m := some(message.GlobalRollbackResponse)
 //@   requires self != nil && wire_ok(m) && in == wire(m)
+//@   aux wirefields := wirefields(m)
 //@   ensures typed: isT(result, message.GlobalRollbackResponse)
 //@   ensures inverse: wire_eq(result.(message.GlobalRollbackResponse), m)
 //@   nopanic
 //@ func (*GlobalRollbackResponseCodec).GetMessageType
 //@   prop C12
+//@   aux expect := typecode(message.GlobalRollbackResponse)
 //@   ensures typecode: result == typecode(message.GlobalRollbackResponse)
 //@   nopanic
 
@@ -221,17 +251,20 @@ package codec
 //@   requires self != nil && isT(in, message.BranchRegisterRequest)
 //@   let m := in.(message.BranchRegisterRequest)
 //@   requires wire_limits(m)
+//@   aux expect := wire(m)
 //@   ensures layout: result == wire(m)
 //@   nopanic
 //@ func (*BranchRegisterRequestCodec).Decode
 //@   prop C12
 //@   let m := some(message.BranchRegisterRequest)
 //@   requires self != nil && wire_ok(m) && in == wire(m)
+//@   aux wirefields := wirefields(m)
 //@   ensures typed: isT(result, message.BranchRegisterRequest)
 //@   ensures inverse: wire_eq(result.(message.BranchRegisterRequest), m)
 //@   nopanic
 //@ func (*BranchRegisterRequestCodec).GetMessageType
 //@   prop C12
+//@   aux expect := typecode(message.BranchRegisterRequest)
 //@   ensures typecode: result == typecode(message.BranchRegisterRequest)
 //@   nopanic
 
@@ -240,17 +273,20 @@ package codec
 //@   requires self != nil && isT(in, message.BranchRegisterResponse)
 //@   let m := in.(message.BranchRegisterResponse)
 //@   requires wire_limits(m)
+//@   aux expect := wire(m)
 //@   ensures layout: result == wire(m)
 //@   nopanic
 //@ func (*BranchRegisterResponseCodec).Decode
 //@   prop C12
 //@   let m := some(message.BranchRegisterResponse)
 //@   requires self != nil && wire_ok(m) && in == wire(m)
+//@   aux wirefields := wirefields(m)
 //@   ensures typed: isT(result, message.BranchRegisterResponse)
 //@   ensures inverse: wire_eq(result.(message.BranchRegisterResponse), m)
 //@   nopanic
 //@ func (*BranchRegisterResponseCodec).GetMessageType
 //@   prop C12
+//@   aux expect := typecode(message.BranchRegisterResponse)
 //@   ensures typecode: result == typecode(message.BranchRegisterResponse)
 //@   nopanic
 
@@ -259,17 +295,20 @@ package codec
 //@   requires self != nil && isT(in, message.BranchReportRequest)
 //@   let m := in.(message.BranchReportRequest)
 //@   requires wire_limits(m)
+//@   aux expect := wire(m)
 //@   ensures layout: result == wire(m)
 //@   nopanic
 //@ func (*BranchReportRequestCodec).Decode
 //@   prop C12
 //@   let m := some(message.BranchReportRequest)
 //@   requires self != nil && wire_ok(m) && in == wire(m)
+//@   aux wirefields := wirefields(m)
 //@   ensures typed: isT(result, message.BranchReportRequest)
 //@   ensures inverse: wire_eq(result.(message.BranchReportRequest), m)
 //@   nopanic
 //@ func (*BranchReportRequestCodec).GetMessageType
 //@   prop C12
+//@   aux expect := typecode(message.BranchReportRequest)
 //@   ensures typecode: result == typecode(message.BranchReportRequest)
 //@   nopanic
 
@@ -278,17 +317,20 @@ package codec
 //@   requires self != nil && isT(in, message.BranchReportResponse)
 //@   let m := in.(message.BranchReportResponse)
 //@   requires wire_limits(m)
+//@   aux expect := wire(m)
 //@   ensures layout: result == wire(m)
 //@   nopanic
 //@ func (*BranchReportResponseCodec).Decode
 //@   prop C12
 //@   let m := some(message.BranchReportResponse)
 //@   requires self != nil && wire_ok(m) && in == wire(m)
+//@   aux wirefields := wirefields(m)
 //@   ensures typed: isT(result, message.BranchReportResponse)
 //@   ensures inverse: wire_eq(result.(message.BranchReportResponse), m)
 //@   nopanic
 //@ func (*BranchReportResponseCodec).GetMessageType
 //@   prop C12
+//@   aux expect := typecode(message.BranchReportResponse)
 //@   ensures typecode: result == typecode(message.BranchReportResponse)
 //@   nopanic
 
@@ -297,17 +339,20 @@ package codec
 //@   requires self != nil && isT(in, message.GlobalStatusRequest)
 //@   let m := in.(message.GlobalStatusRequest)
 //@   requires wire_limits(m)
+//@   aux expect := wire(m)
 //@   ensures layout: result == wire(m)
 //@   nopanic
 //@ func (*GlobalStatusRequestCodec).Decode
 //@   prop C12
 //@   let m := some(message.GlobalStatusRequest)
 //@   requires self != nil && wire_ok(m) && in == wire(m)
+//@   aux wirefields := wirefields(m)
 //@   ensures typed: isT(result, message.GlobalStatusRequest)
 //@   ensures inverse: wire_eq(result.(message.GlobalStatusRequest), m)
 //@   nopanic
 //@ func (*GlobalStatusRequestCodec).GetMessageType
 //@   prop C12
+//@   aux expect := typecode(message.GlobalStatusRequest)
 //@   ensures typecode: result == typecode(message.GlobalStatusRequest)
 //@   nopanic
 
@@ -316,17 +361,20 @@ package codec
 //@   requires self != nil && isT(in, message.GlobalStatusResponse)
 //@   let m := in.(message.GlobalStatusResponse)
 //@   requires wire_limits(m)
+//@   aux expect := wire(m)
 //@   ensures layout: result == wire(m)
 //@   nopanic
 //@ func (*GlobalStatusResponseCodec).Decode
 //@   prop C12
 //@   let m := some(message.GlobalStatusResponse)
 //@   requires self != nil && wire_ok(m) && in == wire(m)
+//@   aux wirefields := wirefields(m)
 //@   ensures typed: isT(result, message.GlobalStatusResponse)
 //@   ensures inverse: wire_eq(result.(message.GlobalStatusResponse), m)
 //@   nopanic
 //@ func (*GlobalStatusResponseCodec).GetMessageType
 //@   prop C12
+//@   aux expect := typecode(message.GlobalStatusResponse)
 //@   ensures typecode: result == typecode(message.GlobalStatusResponse)
 //@   nopanic
 
@@ -335,17 +383,20 @@ package codec
 //@   requires self != nil && isT(in, message.GlobalReportRequest)
 //@   let m := in.(message.GlobalReportRequest)
 //@   requires wire_limits(m)
+//@   aux expect := wire(m)
 //@   ensures layout: result == wire(m)
 //@   nopanic
 //@ func (*GlobalReportRequestCodec).Decode
 //@   prop C12
 //@   let m := some(message.GlobalReportRequest)
 //@   requires self != nil && wire_ok(m) && in == wire(m)
+//@   aux wirefields := wirefields(m)
 //@   ensures typed: isT(result, message.GlobalReportRequest)
 //@   ensures inverse: wire_eq(result.(message.GlobalReportRequest), m)
 //@   nopanic
 //@ func (*GlobalReportRequestCodec).GetMessageType
 //@   prop C12
+//@   aux expect := typecode(message.GlobalReportRequest)
 //@   ensures typecode: result == typecode(message.GlobalReportRequest)
 //@   nopanic
 
@@ -354,17 +405,20 @@ package codec
 //@   requires self != nil && isT(in, message.GlobalReportResponse)
 //@   let m := in.(message.GlobalReportResponse)
 //@   requires wire_limits(m)
+//@   aux expect := wire(m)
 //@   ensures layout: result == wire(m)
 //@   nopanic
 //@ func (*GlobalReportResponseCodec).Decode
 //@   prop C12
 //@   let m := some(message.GlobalReportResponse)
 //@   requires self != nil && wire_ok(m) && in == wire(m)
+//@   aux wirefields := wirefields(m)
 //@   ensures typed: isT(result, message.GlobalReportResponse)
 //@   ensures inverse: wire_eq(result.(message.GlobalReportResponse), m)
 //@   nopanic
 //@ func (*GlobalReportResponseCodec).GetMessageType
 //@   prop C12
+//@   aux expect := typecode(message.GlobalReportResponse)
 //@   ensures typecode: result == typecode(message.GlobalReportResponse)
 //@   nopanic
 
@@ -373,17 +427,20 @@ package codec
 //@   requires self != nil && isT(in, message.GlobalLockQueryRequest)
 //@   let m := in.(message.GlobalLockQueryRequest)
 //@   requires wire_limits(m)
+//@   aux expect := wire(m)
 //@   ensures layout: result == wire(m)
 //@   nopanic
 //@ func (*GlobalLockQueryRequestCodec).Decode
 //@   prop C12
 //@   let m := some(message.GlobalLockQueryRequest)
 //@   requires self != nil && wire_ok(m) && in == wire(m)
+//@   aux wirefields := wirefields(m)
 //@   ensures typed: isT(result, message.GlobalLockQueryRequest)
 //@   ensures inverse: wire_eq(result.(message.GlobalLockQueryRequest), m)
 //@   nopanic
 //@ func (*GlobalLockQueryRequestCodec).GetMessageType
 //@   prop C12
+//@   aux expect := typecode(message.GlobalLockQueryRequest)
 //@   ensures typecode: result == typecode(message.GlobalLockQueryRequest)
 //@   nopanic
 
@@ -392,17 +449,20 @@ package codec
 //@   requires self != nil && isT(in, message.GlobalLockQueryResponse)
 //@   let m := in.(message.GlobalLockQueryResponse)
 //@   requires wire_limits(m)
+//@   aux expect := wire(m)
 //@   ensures layout: result == wire(m)
 //@   nopanic
 //@ func (*GlobalLockQueryResponseCodec).Decode
 //@   prop C12
 //@   let m := some(message.GlobalLockQueryResponse)
 //@   requires self != nil && wire_ok(m) && in == wire(m)
+//@   aux wirefields := wirefields(m)
 //@   ensures typed: isT(result, message.GlobalLockQueryResponse)
 //@   ensures inverse: wire_eq(result.(message.GlobalLockQueryResponse), m)
 //@   nopanic
 //@ func (*GlobalLockQueryResponseCodec).GetMessageType
 //@   prop C12
+//@   aux expect := typecode(message.GlobalLockQueryResponse)
 //@   ensures typecode: result == typecode(message.GlobalLockQueryResponse)
 //@   nopanic
 
@@ -411,17 +471,20 @@ package codec
 //@   requires self != nil && isT(in, message.RegisterTMRequest)
 //@   let m := in.(message.RegisterTMRequest)
 //@   requires wire_limits(m)
+//@   aux expect := wire(m)
 //@   ensures layout: result == wire(m)
 //@   nopanic
 //@ func (*RegisterTMRequestCodec).Decode
 //@   prop C12
 //@   let m := some(message.RegisterTMRequest)
 //@   requires self != nil && wire_ok(m) && in == wire(m)
+//@   aux wirefields := wirefields(m)
 //@   ensures typed: isT(result, message.RegisterTMRequest)
 //@   ensures inverse: wire_eq(result.(message.RegisterTMRequest), m)
 //@   nopanic
 //@ func (*RegisterTMRequestCodec).GetMessageType
 //@   prop C12
+//@   aux expect := typecode(message.RegisterTMRequest)
 //@   ensures typecode: result == typecode(message.RegisterTMRequest)
 //@   nopanic
 
@@ -430,17 +493,20 @@ package codec
 //@   requires self != nil && isT(in, message.RegisterTMResponse)
 //@   let m := in.(message.RegisterTMResponse)
 //@   requires wire_limits(m)
+//@   aux expect := wire(m)
 //@   ensures layout: result == wire(m)
 //@   nopanic
 //@ func (*RegisterTMResponseCodec).Decode
 //@   prop C12
 //@   let m := some(message.RegisterTMResponse)
 //@   requires self != nil && wire_ok(m) && in == wire(m)
+//@   aux wirefields := wirefields(m)
 //@   ensures typed: isT(result, message.RegisterTMResponse)
 //@   ensures inverse: wire_eq(result.(message.RegisterTMResponse), m)
 //@   nopanic
 //@ func (*RegisterTMResponseCodec).GetMessageType
 //@   prop C12
+//@   aux expect := typecode(message.RegisterTMResponse)
 //@   ensures typecode: result == typecode(message.RegisterTMResponse)
 //@   nopanic
 
@@ -449,17 +515,20 @@ package codec
 //@   requires self != nil && isT(in, message.RegisterRMRequest)
 //@   let m := in.(message.RegisterRMRequest)
 //@   requires wire_limits(m)
+//@   aux expect := wire(m)
 //@   ensures layout: result == wire(m)
 //@   nopanic
 //@ func (*RegisterRMRequestCodec).Decode
 //@   prop C12
 //@   let m := some(message.RegisterRMRequest)
 //@   requires self != nil && wire_ok(m) && in == wire(m)
+//@   aux wirefields := wirefields(m)
 //@   ensures typed: isT(result, message.RegisterRMRequest)
 //@   ensures inverse: wire_eq(result.(message.RegisterRMRequest), m)
 //@   nopanic
 //@ func (*RegisterRMRequestCodec).GetMessageType
 //@   prop C12
+//@   aux expect := typecode(message.RegisterRMRequest)
 //@   ensures typecode: result == typecode(message.RegisterRMRequest)
 //@   nopanic
 
@@ -468,17 +537,20 @@ package codec
 //@   requires self != nil && isT(in, message.RegisterRMResponse)
 //@   let m := in.(message.RegisterRMResponse)
 //@   requires wire_limits(m)
+//@   aux expect := wire(m)
 //@   ensures layout: result == wire(m)
 //@   nopanic
 //@ func (*RegisterRMResponseCodec).Decode
 //@   prop C12
 //@   let m := some(message.RegisterRMResponse)
 //@   requires self != nil && wire_ok(m) && in == wire(m)
+//@   aux wirefields := wirefields(m)
 //@   ensures typed: isT(result, message.RegisterRMResponse)
 //@   ensures inverse: wire_eq(result.(message.RegisterRMResponse), m)
 //@   nopanic
 //@ func (*RegisterRMResponseCodec).GetMessageType
 //@   prop C12
+//@   aux expect := typecode(message.RegisterRMResponse)
 //@   ensures typecode: result == typecode(message.RegisterRMResponse)
 //@   nopanic
 
@@ -488,6 +560,7 @@ package codec
 //@   requires self != nil && isT(in, message.AbstractGlobalEndRequest)
 //@   let m := in.(message.AbstractGlobalEndRequest)
 //@   requires wire_limits(m)
+//@   aux expect := wire(m)
 //@   ensures layout: result == wire(m)
 //@   nopanic
 //@ func (*CommonGlobalEndRequestCodec).Decode
@@ -495,6 +568,7 @@ package codec
 //@   inline
 //@   let m := some(message.AbstractGlobalEndRequest)
 //@   requires self != nil && wire_ok(m) && in == wire(m)
+//@   aux wirefields := wirefields(m)
 //@   ensures typed: isT(result, message.AbstractGlobalEndRequest)
 //@   ensures inverse: wire_eq(result.(message.AbstractGlobalEndRequest), m)
 //@   nopanic
@@ -505,6 +579,7 @@ package codec
 //@   requires self != nil && isT(in, message.AbstractGlobalEndResponse)
 //@   let m := in.(message.AbstractGlobalEndResponse)
 //@   requires wire_limits(m)
+//@   aux expect := wire(m)
 //@   ensures layout: result == wire(m)
 //@   nopanic
 //@ func (*CommonGlobalEndResponseCodec).Decode
@@ -512,6 +587,7 @@ package codec
 //@   inline
 //@   let m := some(message.AbstractGlobalEndResponse)
 //@   requires self != nil && wire_ok(m) && in == wire(m)
+//@   aux wirefields := wirefields(m)
 //@   ensures typed: isT(result, message.AbstractGlobalEndResponse)
 //@   ensures inverse: wire_eq(result.(message.AbstractGlobalEndResponse), m)
 //@   nopanic
@@ -522,6 +598,7 @@ package codec
 //@   requires self != nil && isT(in, message.AbstractIdentifyRequest)
 //@   let m := in.(message.AbstractIdentifyRequest)
 //@   requires wire_limits(m)
+//@   aux expect := wire(m)
 //@   ensures layout: result == wire(m)
 //@   nopanic
 //@ func (*AbstractIdentifyRequestCodec).Decode
@@ -529,6 +606,7 @@ package codec
 //@   inline
 //@   let m := some(message.AbstractIdentifyRequest)
 //@   requires self != nil && wire_ok(m) && in == wire(m)
+//@   aux wirefields := wirefields(m)
 //@   ensures typed: isT(result, message.AbstractIdentifyRequest)
 //@   ensures inverse: wire_eq(result.(message.AbstractIdentifyRequest), m)
 //@   nopanic
@@ -539,6 +617,7 @@ package codec
 //@   requires self != nil && isT(in, message.AbstractIdentifyResponse)
 //@   let m := in.(message.AbstractIdentifyResponse)
 //@   requires wire_limits(m)
+//@   aux expect := wire(m)
 //@   ensures layout: result == wire(m)
 //@   nopanic
 //@ func (*AbstractIdentifyResponseCodec).Decode
@@ -546,6 +625,7 @@ package codec
 //@   inline
 //@   let m := some(message.AbstractIdentifyResponse)
 //@   requires self != nil && wire_ok(m) && in == wire(m)
+//@   aux wirefields := wirefields(m)
 //@   ensures typed: isT(result, message.AbstractIdentifyResponse)
 //@   ensures inverse: wire_eq(result.(message.AbstractIdentifyResponse), m)
 //@   nopanic
